@@ -258,6 +258,9 @@ impl C11 {
 impl Monitor for C11 {
     fn step(&mut self, w: &mut World, s: &Step, rep: &mut Reporter) {
         self.judge(w, s, rep);
+        if s.fpre.cfg.fee_collector_addr != w.fc && s.out.is_ok() && matches!(s.op, Op::Fm { msg: fm::ExecuteMsg::ManageFarm { action: FarmAction::Create { .. } }, .. }) {
+            rep.count("create_takes_exactly", "creations_while_the_fee_collector_is_a_plain_account");
+        }
         if !matches!(s.op, Op::Fm { msg: fm::ExecuteMsg::ManageFarm { .. }, .. }) {
             if s.idx % self.probe_every == 7 {
                 self.exact_payment_probe(w, s, rep);
@@ -423,7 +426,7 @@ impl C11 {
                     exp.push((sender.to_string(), w.fm.to_string(), c.denom.clone(), c.amount.u128()));
                 }
                 if !fee.amount.is_zero() {
-                    exp.push((w.fm.to_string(), w.fc.to_string(), fee.denom.clone(), fee.amount.u128()));
+                    exp.push((w.fm.to_string(), s.fpre.cfg.fee_collector_addr.to_string(), fee.denom.clone(), fee.amount.u128()));
                     if fee.denom != params.farm_asset.denom {
                         let paid = funds.iter().find(|c| c.denom == fee.denom).map(|c| c.amount.u128()).unwrap_or(0);
                         if paid > fee.amount.u128() {
